@@ -97,10 +97,8 @@ mod imp {
             if sig_has_unpadded(&s) {
                 t2 = true;
             }
-            let empty = matches!(x, Val::A(_, xs) if xs.is_empty())
-                || matches!(x, Val::Dict(_, _, es) if es.is_empty())
-                || matches!(x, Val::M(_, None));
-            if empty && (x as *const Val) != top {
+            let _ = top;
+            if body_is_only_framing(x) {
                 t3 = true;
             }
         });
@@ -115,15 +113,27 @@ mod imp {
         }
     }
 
+    /// The exact shape of the listed zero-length deviation: a container that HAS children of variable size, all of which
+    /// serialise to zero bytes (empty arrays / dicts, `Nothing`), so that its normal form consists of framing only
+    /// (`aay [[]]` = one offset byte; `(ayay) ([],[])` = one offset byte; `may Just([])` = the one zero byte). The library
+    /// writes nothing at all for these. Anything else with empty children (`[["a"], []]`, `("", [])`, ...) is judged strictly.
+    pub fn body_is_only_framing(x: &Val) -> bool {
+        fn zero(v: &Val) -> bool {
+            vref::gv::serialize(v, Endian::Le).is_empty()
+        }
+        match x {
+            Val::A(es, xs) => es.fixed_size_gv().is_none() && !xs.is_empty() && xs.iter().all(zero),
+            Val::St(fs) => !fs.is_empty() && fs.iter().all(zero),
+            Val::M(c, Some(inner)) => c.fixed_size_gv().is_none() && zero(inner),
+            _ => false,
+        }
+    }
+
     /// Only the zero-length-child deviation (the one that breaks round trips).
     pub fn zero_length_child(val: &Val) -> bool {
-        let top = val as *const Val;
         let mut t3 = false;
         val.visit(&mut |x| {
-            let empty = matches!(x, Val::A(_, xs) if xs.is_empty())
-                || matches!(x, Val::Dict(_, _, es) if es.is_empty())
-                || matches!(x, Val::M(_, None));
-            if empty && (x as *const Val) != top {
+            if body_is_only_framing(x) {
                 t3 = true;
             }
         });
